@@ -695,6 +695,9 @@ func (c *Ctx) dispatchTables(t *Tables) {
 						implOf[name] = sc
 						if ctx == "origin" {
 							t.RRet[name] = c.originReturn(f, body, call)
+							if t.RRet[name] == "?" {
+								t.RRet[name] = implReturnType(sc)
+							}
 						}
 						c.Touch(f)
 						done = true
@@ -774,9 +777,33 @@ func (c *Ctx) originReturn(f *ssa.Function, body *ssa.BasicBlock, call *ssa.Call
 		case *ssa.MakeInterface:
 			return typeShort(x.X.Type())
 		case *ssa.Extract:
-			if cl, ok := x.Tuple.(*ssa.Call); ok && cl.Call.StaticCallee() != nil && cl.Call.StaticCallee().Name() == "parseVar" {
-				return "any"
+			if cl, ok := x.Tuple.(*ssa.Call); ok && cl.Call.StaticCallee() != nil && cl.Call.StaticCallee().Signature.Results().Len() == 2 && core.IsNamedType(cl.Call.StaticCallee().Signature.Results().At(0).Type(), core.ModPath+"/internal/interpreter", "Value") {
+				return "any" // read by the declared type
 			}
+		}
+	}
+	return "?"
+}
+
+// implReturnType: what the implementation of an origin builtin hands back: a Value type
+// (possibly through a pointer), or text / a Value that is then read by the declared type ("any").
+func implReturnType(sc *ssa.Function) string {
+	if sc == nil || sc.Signature.Results().Len() == 0 {
+		return "?"
+	}
+	t := types.Unalias(sc.Signature.Results().At(0).Type())
+	if p, ok := t.(*types.Pointer); ok {
+		t = types.Unalias(p.Elem())
+	}
+	switch x := t.(type) {
+	case *types.Named:
+		if x.Obj().Name() == "Value" {
+			return "any"
+		}
+		return x.Obj().Name()
+	case *types.Basic:
+		if x.Kind() == types.String {
+			return "any"
 		}
 	}
 	return "?"
